@@ -26,7 +26,7 @@ type vpRing struct{ pos map[string]uint64 }
 func (h vpRing) Sum64(b []byte) uint64 { return h.pos[string(b)] }
 
 // vpFrag is a fragment stub that only reports how many keys it holds.
-type vpFrag struct{ length int }
+type vpFrag struct{ length int } // length may be a solver variable: it is only looked at when somebody asks
 
 func (f *vpFrag) Name() string         { return "stub" }
 func (f *vpFrag) Stats() storage.Stats { return storage.Stats{Length: f.length} }
@@ -154,7 +154,7 @@ func vpNewRtCluster(n int, parts uint64, replicas int, live []bool, ids []uint64
 		r := VerifNew(x.member, c, primary, backup, int32(len(nodes)), 0)
 		r.log = lg
 		r.discovery = discoveryVerifNew(x.member, memberlist.VerifNew(nodes), c, lg)
-		r.consistent = consistent.New(liveMembers, consistent.Config{Hasher: ring, PartitionCount: int(parts), ReplicationFactor: 1, Load: 4})
+		r.consistent = consistent.New(liveMembers, consistent.Config{Hasher: ring, PartitionCount: int(parts), ReplicationFactor: 2, Load: 4})
 		r.client = server.NewClient(nil)
 		r.ctx = context.Background()
 		r.joined = make(chan struct{})
@@ -194,7 +194,11 @@ func vpSameIDs(a, b []discoveryMember) bool {
 func VerifC13_RoutingStep() {
 	const n = 3
 	const parts = uint64(3) // the ring library needs at least as many partitions as members; partition 0 is observed
-	replicas := 1 + vpChoose("replicas", 3)
+	replicas := 2
+	if vpBound("allreplicas") != 0 {
+		replicas = 1 + vpChoose("replicas", 3)
+	}
+	maxPrev := vpBound("maxprev")
 	var live [n]bool
 	ids := make([]uint64, n)
 	prevIDs := make([]uint64, n)
@@ -207,35 +211,70 @@ func VerifC13_RoutingStep() {
 		births[i] = int64(1 + i)
 		if live[i] {
 			nLive++
-			if vpBool("rejoined") { // same address, new incarnation: the previous table knows the old ID
-				prevIDs[i] = uint64(200 + i)
-				births[i] = int64(10 + i)
-			}
 		}
 	}
 	vpAssume(nLive >= 1)
-	// the ring: positions of virtual nodes, member keys and the partition key, pairwise distinct, solver-chosen
-	ring := vpRing{pos: map[string]uint64{}}
-	var used []uint64
-	place := func(key string) {
-		p := uint64(vpRange("ringpos", 0, 23))
-		for _, u := range used {
-			vpAssume(p != u)
-		}
-		used = append(used, p)
-		ring.pos[key] = p
+	// at most one member has re-joined under its old address: the previous table knows its old incarnation
+	if rj := vpChoose("rejoined", n+1); rj < n {
+		vpAssume(live[rj])
+		prevIDs[rj] = uint64(200 + rj)
+		births[rj] = int64(10 + rj)
 	}
+	// the ring: one of three rotations of the members around the partition keys
+	rot := vpChoose("ring", vpBound("rings"))
+	ring := vpRing{pos: map[string]uint64{}}
+	slot := 0
 	for i := 0; i < n; i++ {
-		if live[i] {
-			name := "n" + strconv.Itoa(i) + ":1"
-			place(name + "0")
-			place(name)
+		if live[(i+rot)%n] {
+			name := "n" + strconv.Itoa((i+rot)%n) + ":1"
+			ring.pos[name+"0"] = uint64(slot*10 + 5) // two virtual nodes per member
+			ring.pos[name+"1"] = uint64(slot*10 + 7)
+			ring.pos[name] = uint64(slot*10 + 6)
+			slot++
 		}
 	}
 	for p := 0; p < int(parts); p++ {
-		place(string([]byte{byte(p), 0, 0, 0, 0, 0, 0, 0}))
+		ring.pos[string([]byte{byte(p), 0, 0, 0, 0, 0, 0, 0})] = uint64((p%slot)*10 + 1)
 	}
-	cl := vpNewRtCluster(n, parts, replicas, live[:], ids, births, ring)
+	// a re-joined member is first known under its old incarnation; the member list then reports the update and the
+	// real cluster-event handler runs on every live member
+	startIDs := append([]uint64{}, ids...)
+	startBirths := append([]int64{}, births...)
+	rejoinedIdx := -1
+	for i := 0; i < n; i++ {
+		if prevIDs[i] != ids[i] {
+			rejoinedIdx = i
+			startIDs[i] = prevIDs[i]
+			startBirths[i] = int64(1 + i)
+		}
+	}
+	cl := vpNewRtCluster(n, parts, replicas, live[:], startIDs, startBirths, ring)
+	if rejoinedIdx >= 0 {
+		nm := cl.ms[rejoinedIdx].member
+		nm.ID, nm.Birthdate = ids[rejoinedIdx], births[rejoinedIdx]
+		cl.ms[rejoinedIdx].member = nm
+		var nodes []*memberlist.Node
+		for i := 0; i < n; i++ {
+			if live[i] {
+				nodes = append(nodes, discoveryVerifNode(cl.ms[i].member))
+			}
+		}
+		meta, _ := nm.Encode()
+		for i := 0; i < n; i++ {
+			if !live[i] {
+				continue
+			}
+			r := cl.ms[i].rt
+			if i == rejoinedIdx {
+				r.this = nm
+				r.discovery = discoveryVerifNew(nm, memberlist.VerifNew(nodes), r.config, r.log)
+			} else {
+				discoveryVerifSet(r.discovery, nodes)
+			}
+			r.processClusterEvent(&discoveryClusterEvent{Event: memberlist.NodeUpdate, NodeName: nm.Name, NodeMeta: meta})
+			r.client.Get(nm.Name).AddHook(vpRtHook{addr: nm.Name}) // the event handler closed the old connection pool
+		}
+	}
 	// previous state
 	prevMember := func(i int) discoveryMember {
 		m := cl.ms[i].member
@@ -244,7 +283,7 @@ func VerifC13_RoutingStep() {
 	}
 	pickList := func(what string) []discoveryMember {
 		var l []discoveryMember
-		k := vpChoose(what+"len", 3)
+		k := vpChoose(what+"len", maxPrev+1)
 		taken := [n]bool{}
 		for j := 0; j < k; j++ {
 			i := vpChoose(what, n)
@@ -266,14 +305,10 @@ func VerifC13_RoutingStep() {
 		r := cl.ms[i].rt
 		r.primary.PartitionByID(0).SetOwners(prevPrimary)
 		r.backup.PartitionByID(0).SetOwners(prevBackup)
-		hasP[i] = vpBool("hasprimarydata")
-		hasB[i] = vpBool("hasbackupdata")
-		if hasP[i] {
-			r.primary.PartitionByID(0).Map().Store("dmap.x", &vpFrag{length: 1})
-		}
-		if hasB[i] {
-			r.backup.PartitionByID(0).Map().Store("dmap.x", &vpFrag{length: 1})
-		}
+		lp, lb := vpRange("primarykeys", 0, 1), vpRange("backupkeys", 0, 1)
+		hasP[i], hasB[i] = lp > 0, lb > 0
+		r.primary.PartitionByID(0).Map().Store("dmap.x", &vpFrag{length: lp})
+		r.backup.PartitionByID(0).Map().Store("dmap.x", &vpFrag{length: lb})
 	}
 	coord := -1
 	for i := 0; i < n; i++ {
